@@ -73,23 +73,26 @@ def body():
         key, s, evs = execs[i]
         c.violation(key, "execution is not a behaviour of the TLS contract (authentication / agreement): first unexplained event #%d %s" % (j, json.dumps(ev)[:200]),
                     {"scenario": s, "event_index": j, "events": evs[max(0, j - 12):j + 3]})
-    # the TLCP server against a peer that is not the library: protocol deviations only a hostile client can produce
+    # the TLCP and TLS 1.2 servers against a peer that is not the library: protocol deviations only a hostile client can produce
     import roguepeer, concurrent.futures as cf
     exe = vlib.cc_driver("srvdrv", ["srvdrv.c", "vh.c"])
     creds = tlslib.ensure_creds()
     DEV = {  # deviation -> (certificate presented, chains to the anchors, possession proved)
         "honest": (True, True, True), "empty_cert": (False, False, False), "empty_cert_with_cv": (False, False, True), "no_cert_msg": (False, False, False),
         "cert_no_cv": (True, True, False), "cv_wrong_key": (True, True, False), "cv_stale_transcript": (True, True, False)}
-    jobs = [("tlcp_d2", "trust_root", d, "cli_d2") for d in DEV] + [("tlcp_d2", "trust_evil", "honest", "cli_d2"), ("tlcp_d2", "trust_root", "honest", "cli_untrusted"),
-                                                                       ("tlcp_d2", "-", "honest", "cli_d2"), ("tlcp_d3", "trust_root", "empty_cert", "cli_d2"), ("tlcp_d1", "trust_root", "cert_no_cv", "cli_d3")]
+    jobs = []
+    for proto, sp in ((257, "tlcp"), (771, "srv")):
+        jobs += [(proto, sp + "_d2", "trust_root", d, "cli_d2") for d in DEV]
+        jobs += [(proto, sp + "_d2", "trust_evil", "honest", "cli_d2"), (proto, sp + "_d2", "trust_root", "honest", "cli_untrusted"), (proto, sp + "_d2", "-", "honest", "cli_d2"),
+                 (proto, sp + "_d3", "trust_root", "empty_cert", "cli_d2"), (proto, sp + "_d1", "trust_root", "cert_no_cv", "cli_d3")]
     def one(j):
-        scred, strust, dev, ccred = j
-        return j, roguepeer.run(creds, exe, 257, scred, strust, dev, ccred=ccred)
+        proto, scred, strust, dev, ccred = j
+        return j, roguepeer.run(creds, exe, proto, scred, strust, dev, ccred=ccred)
     rexecs = []
     with cf.ThreadPoolExecutor(8) as ex:
         for j, (view, evs, san) in ex.map(one, jobs):
-            scred, strust, dev, ccred = j
-            key = "c09:rogue:p257:scred=%s:strust=%s:ccred=%s:%s" % (scred, strust, ccred, dev)
+            proto, scred, strust, dev, ccred = j
+            key = "c09:rogue:p%d:scred=%s:strust=%s:ccred=%s:%s" % (proto, scred, strust, ccred, dev)
             c.count(1, key)
             hr = [e for e in evs if e["e"] == "HsRet"]
             if san or not hr or not any(e["e"] == "End" for e in evs):
